@@ -126,6 +126,12 @@ FINDING_PREDICATES = {
     "C04-normalised-name-collision": _c04(_same_key),
     # method timestamp, last run fine, but a generates pattern matches nothing
     "C04-timestamp-missing-generates": _c04(lambda m, f: f.get("method") == "timestamp" and f.get("gens") == "0" and f.get("laexit") == "ok"),
+    # method timestamp, never attempted and no marker before: decided by the generates' mtimes alone
+    "C04-timestamp-never-ran": _c04(lambda m, f: f.get("method") == "timestamp" and f.get("lastatt") == "-" and f.get("writer") == "-"),
+    # method timestamp, last attempt fine, generates there, but a source is newer than that attempt (and not
+    # newer than the marker, which every check — also a skipped one — moves to the time of the check)
+    "C04-timestamp-marker-moved-by-every-check": _c04(lambda m, f: f.get("method") == "timestamp" and f.get("gens") == "1" and
+                                                      f.get("laexit") == "ok" and f.get("srcnewer") == "1"),
     # same multiset of (base name, content), different paths
     "C05-dir-move-not-detected": _c05(lambda m, f: f.get("kind") == "change-not-detected" and f.get("samebases") == "1" and f.get("method") == "checksum"),
     "C05-timestamp-missing-generates": _c05(lambda m, f: f.get("kind") == "missing-generates-skipped" and f.get("method") == "timestamp"),
